@@ -17,6 +17,12 @@ EXTENDS Config, TraceIO
 Got(c, p) == LET lk == Lookup(c, p) IN IF lk.ok THEN lk.n ELSE Leaf(0)
 GetsOK(c, g) == \A x \in DOMAIN g : g[x].r = Got(c, g[x].p)
 
+\* every probe of an assigned path (either spelling) returned the assigned value, unless a later
+\* assignment of the same call overwrote it
+SeenOK(asgs, g) ==
+  \A i \in 1..Len(asgs) : Shadowed(asgs, i) \/
+     \A x \in DOMAIN g : (g[x].p = asgs[i].p \/ g[x].p = AltPath(asgs[i].p)) => g[x].r = asgs[i].v
+
 RECURSIVE Walk(_, _, _, _)
 Walk(ev, i, c, st) ==
   IF i > Len(ev) THEN {}
@@ -24,10 +30,16 @@ Walk(ev, i, c, st) ==
     LET e == ev[i] IN
     IF e.op = "set" THEN
       LET s == SetCall(c, e.asgs) IN
-      IF ~s.ok THEN                                   \* the call must raise and change nothing; the recorder stops here
-         (IF ~e.raised \/ e.cfg = c THEN {}
-          ELSE IF e.cfg = PartialSet(c, e.asgs) THEN {"FailedSetKeepsEarlierAssignments"}
-          ELSE {"FailedSetIsAtomic"})
+      IF ~s.ok THEN
+        IF e.raised THEN                              \* must change nothing; the recorder stops here
+          (IF e.cfg = c THEN {}
+           ELSE IF e.cfg = PartialSet(c, e.asgs) THEN {"FailedSetKeepsEarlierAssignments"}
+           ELSE {"FailedSetIsAtomic"})
+        \* The code accepted a call the transcription says it rejects (a dotted path through a
+        \* scalar).  That alone is no alarm - but the policy-free clauses still bind: get sees the
+        \* set values now, and the matching exit must restore the entry configuration c.
+        ELSE IF ~SeenOK(e.asgs, e.g) THEN {"GetSeesSet"}
+        ELSE Walk(ev, i + 1, e.cfg, Append(st, [snap |-> c, rec |-> <<>>]))
       ELSE IF e.raised THEN {"UnexpectedRaise"}
       ELSE IF e.cfg # s.n THEN {"SetResult"}
       ELSE IF ~(GetsOK(s.n, e.g) /\ GetSeesSetOK(s.n, e.asgs)) THEN {"GetSeesSet"}
